@@ -227,6 +227,8 @@ def run_concrete(contract_module, cls_name, shape_idx, concrete):
 def differential(contract_module, cls_name, shape_idx, seeds):
     """Compare interpreter (all-concrete) and CPython on seeded random inputs."""
     res = dict(cases=0, skipped=0, mismatches=[], errors=[])
+    C = getattr(_import_native(contract_module), cls_name)
+    compare_ret = getattr(C, "compare_ret", True)
     for seed in seeds:
         n = native_case(contract_module, cls_name, shape_idx, seed=seed)
         if n.get("error"):
@@ -243,10 +245,10 @@ def differential(contract_module, cls_name, shape_idx, seeds):
         n_checks = n["checks"][: n.get("n_ensures", len(n["checks"]))]
         same = (n["raised"] == i["raised"]) and (i["skipped"] == n["skipped"])
         if same and n["raised"] is None:
-            same = n["ret"] == i["ret"] and [tuple(c) for c in n_checks] == [tuple(c) for c in i["checks"]]
+            same = (not compare_ret or n["ret"] == i["ret"]) and [tuple(c) for c in n_checks] == [tuple(c) for c in i["checks"]]
         if not same:
-            res["mismatches"].append(dict(seed=seed, native=dict(raised=n["raised"], ret=n["ret"], checks=n_checks),
-                                          interp=dict(raised=i["raised"], ret=i["ret"], checks=i["checks"], skipped=i["skipped"])))
+            res["mismatches"].append(dict(seed=seed, native=dict(raised=n["raised"], ret=str(n["ret"])[:300] if compare_ret else None, checks=n_checks),
+                                          interp=dict(raised=i["raised"], ret=str(i["ret"])[:300] if compare_ret else None, checks=i["checks"], skipped=i["skipped"])))
     return res
 
 
